@@ -20,8 +20,10 @@ Init == \E cfg \in CFGS : \E cands \in InitCands :
           /\ lastop = [o |-> "reset"] /\ lastret = <<"ok", 0>> /\ res = [q |-> q, ret |-> <<"ok", 0>>] /\ done = FALSE
           /\ hist = <<[o |-> "reset", pred |-> cfg.pred, par |-> cfg.par, nr |-> cfg.nr, pto |-> cfg.pto, cands |-> cands]>>
 
-NewsSets(p) == {<<>>} \cup {<<<<a, Match(a)>>>> : a \in Peers \ {p}}
-               \cup (IF MAXNEWS >= 2 THEN {<<<<a, Match(a)>>, <<b, Match(b)>>>> : a \in Peers \ {p}, b \in Peers \ {p}} ELSE {})
+\* in simulation a peer may be reported with different records, some satisfying the predicate and some not
+Ms(a) == IF DEPTH > 0 THEN BOOLEAN ELSE {Match(a)}
+NewsSets(p) == {<<>>} \cup UNION {{<<<<a, m>>>> : m \in Ms(a)} : a \in Peers \ {p}}
+               \cup (IF MAXNEWS >= 2 THEN UNION {{<<<<ab[1], m1>>, <<ab[2], m2>>>> : m1 \in Ms(ab[1]), m2 \in Ms(ab[2])} : ab \in (Peers \ {p}) \X (Peers \ {p})} ELSE {})
 Ops == {[o |-> "next"]} \cup {[o |-> "tick", d |-> 1]}
        \cup {[o |-> "on_failure", p |-> contacted[i]] : i \in 1..Len(contacted)}
        \cup UNION {{[o |-> "on_success", p |-> contacted[i], news |-> ns] : ns \in NewsSets(contacted[i])} : i \in 1..Len(contacted)}
